@@ -412,6 +412,8 @@ class ParserDomain(TermDomain):
     """Abstract parser state: the lexer is a stream of fresh symbolic tokens (then None for ever), the queue is a sequence,
     the tree builder is an effect log."""
 
+    inline_depth = 10  # helper layering (eat -> skip -> closure -> bump -> get -> fill) must not hide a primitive
+
     def __init__(self, facts):
         super().__init__()
         self.facts = facts
@@ -446,16 +448,21 @@ class ParserDomain(TermDomain):
             if m in ("open", "close", "close_at", "checkpoint", "build"):
                 return [(ok(T("call:" + m, *vals)), st), (err(Sym("builder_error")), self.with_log(st, ("fail", m)))]
             return [(T("call:" + m, *vals), st)]
-        if name.endswith("as std::cmp::PartialEq>::eq") and len(args) == 2:
+        if (name.endswith("as std::cmp::PartialEq>::eq") or name.endswith("as std::cmp::PartialEq>::ne")) and len(args) == 2:
+            neg = name.endswith("::ne")
             a, b = it.read_ref(store, args[0]), it.read_ref(store, args[1])
+            a = it.read_ref(store, a) if isinstance(a, Ref) else a
+            b = it.read_ref(store, b) if isinstance(b, Ref) else b
             if a == b:
-                return [(Const(True), store)]
-            return self.fork(store, T("kind_eq", *sorted((a, b), key=repr)))
-        if name.endswith("as std::cmp::PartialEq>::ne") and len(args) == 2:
-            a, b = it.read_ref(store, args[0]), it.read_ref(store, args[1])
-            if a == b:
-                return [(Const(False), store)]
-            return [(Const(not v.v), s_) for v, s_ in self.fork(store, T("kind_eq", *sorted((a, b), key=repr)))]
+                return [(Const(not neg), store)]
+            if isinstance(a, Agg) and isinstance(b, Agg) and a.vi is not None and b.vi is not None and not a.fields and not b.fields:
+                return [(Const((a.vi == b.vi) != neg), store)]
+            # a symbolic kind against a concrete variant: the same predicate a `match` on the kind asks
+            for x, y in ((a, b), (b, a)):
+                if isinstance(x, (Sym, T)) and isinstance(y, Agg) and y.vi is not None and not y.fields:
+                    d = self.facts.discr_of(y.path, y.vname) if y.path else y.vi
+                    return [(Const(v.v != neg), s_) for v, s_ in self.fork(store, T("==", T("discr", x), Const(d)))]
+            return [(Const(v.v != neg), s_) for v, s_ in self.fork(store, T("kind_eq", *sorted((a, b), key=repr)))]
         return super().call(it, name, args, store, term, frame)
 
     def discr_of(self, v):
